@@ -267,7 +267,7 @@ func signLindell22(r int) {
 }
 
 func signL22On[GE algebra.PrimeGroupElement[GE, S], S algebra.PrimeFieldElement[S], M schnorrlike.Message](d *l22Desc[GE, S, M], r, vi int) {
-	for _, it := range planCheap(vi + r) {
+	for _, it := range planCheap(vi+r, []int{0, 1}) {
 		pi, qi := it.pi, it.qi
 		api := []string{"rounds", "runner"}[(pi+qi+vi+r)%2]
 		msgClass := msgClasses[(pi+qi+r+vi)%len(msgClasses)]
@@ -368,6 +368,7 @@ func l22Line[GE algebra.PrimeGroupElement[GE, S], S algebra.PrimeFieldElement[S]
 	}
 	frozen := pm.Freeze()
 	var first *schnorrlike.Signature[GE, S]
+	objToks := []int{}
 	aggregate := func(who string, holder ID, cos *l22signing.Cosigner[GE, S, M]) {
 		a, err := d.agg(shards[holder].PublicKeyMaterial(), cos)
 		if err != nil {
@@ -379,7 +380,15 @@ func l22Line[GE algebra.PrimeGroupElement[GE, S], S algebra.PrimeFieldElement[S]
 			addOut(ev, who, 0, err)
 			return
 		}
-		addOut(ev, who, tok(sig), nil)
+		// the token of a signature is the token of its wire form (what a verifier receives); the token of the in-memory value
+		// (its CBOR encoding, nonce point included) is logged next to it
+		wireBytes, err := d.variant().SerializeSignature(sig)
+		if err != nil {
+			addOut(ev, who, 0, err)
+			return
+		}
+		addOut(ev, who, proto.Tok(wireBytes), nil)
+		objToks = append(objToks, tok(sig))
 		if first == nil {
 			first = sig
 		}
@@ -390,6 +399,7 @@ func l22Line[GE algebra.PrimeGroupElement[GE, S], S algebra.PrimeFieldElement[S]
 			aggregate(fmt.Sprintf("agg:%d", id), id, c)
 		}
 	}
+	ev["objToks"] = objToks
 	if first == nil {
 		return
 	}
